@@ -98,6 +98,8 @@ def floatUnary (f : Fmt) (name : String) (b : Nat) : Option (Unit × String) :=
     match FSpec.lrint f 64 b with
     | none => some unspecified
     | some v => some (out3 (fmtEI (Model.lrintFallback f 64 b)) (toString v) (toString v))
+  -- sqrt: the builtin on both paths under GCC (constant evaluation: special-value ladder first, Model.sqrtCt)
+  | "sqrt" => let s := fmtF f (FSpec.sqrt f b); some (out3 (fmtF f (Model.sqrtCt f b)) s s)
   | "signbit" => let s := fmtBool (FSpec.signbit f b); some (out3 s s s)
   | "isnan" => let s := fmtBool (f.isNaN b); some (out3 s s s)
   | "isinf" => let s := fmtBool (f.isInf b); some (out3 s s s)
@@ -158,16 +160,17 @@ def step (_ : Unit) (l : Line) : Unit × String :=
       match bitsArg f l "x", bitsArg f l "y", bitsArg f l "z" with
       | some x, some y, some z =>
         let r := f.fma x y z
-        let t := Model.fmaTwoStep f x y z
         let anyNaN := f.isNaN x || f.isNaN y || f.isNaN z
-        -- [expr.pre]/4: a result that is not mathematically defined (inf·0, inf−inf) or not representable (overflow of a
-        -- finite computation, in either the fused or the two-step evaluation) is undefined, hence no constant expression
-        let invalid := !anyNaN && (f.isNaN r || f.isNaN t)
-        let overflow := (f.isFinite x && f.isFinite y && f.isFinite z) && (!f.isFinite r || !f.isFinite (f.mul x y) || !f.isFinite t)
+        -- outside the domain (masked): the fused result is not mathematically defined (inf·0, inf−inf: NaN from non-NaN
+        -- arguments) or not representable (overflow of the single rounding of finite arguments).  Everything else is
+        -- inside: in particular arguments whose two-step evaluation x*y+z would overflow while the fused result is
+        -- finite (FLT_MAX·2 − FLT_MAX), and results in the subnormal range.
+        let invalid := !anyNaN && f.isNaN r
+        let overflow := f.isFinite x && f.isFinite y && f.isFinite z && !f.isFinite r
         if invalid || overflow then unspecified
         else
           let s := fmtF f r
-          out3 (fmtF f (Model.fmaTwoStep f x y z)) s s
+          out3 (fmtEF f (Model.fmaCt f x y z)) s s
       | _, _, _ => bad
     | _ =>
       match bitsArg f l "x" with
